@@ -696,7 +696,9 @@ def check_C01(args):
                 dict(tables=MC_TABLES, menu=MC_MENU, max_flushes=2, max_crashes=0, invs=["ViewCorrect"], props=(),
                      expect_violation={"invs": ["ViewCorrect"], "why": D8_KEY})]
         if not quick:
-            jobs.append(dict(tables=C01_TABLES[:4], menu=MENU2, max_flushes=3, max_crashes=0, flags=design,
+            # (measured: 3 tables / 3 flushes 1.95 M distinct states, 3 min on 8 workers; with the view as
+            # a fourth table the instance did not finish in 50 min at 78 M states)
+            jobs.append(dict(tables=C01_TABLES[:3], menu=MENU2, max_flushes=3, max_crashes=0, flags=design,
                              invs=ALL_INVS + ["ViewCorrect"]))
         return jobs
 
